@@ -635,3 +635,1045 @@ def big_chunkings(n):
     yield [data[i : i + 4095] for i in range(0, n, 4095)]
     yield [b"", data, b""]
     yield [data[:1], b"", data[1:-1], data[-1:]]
+
+
+# --------------------------------------------------------------------------- family H: setter histories
+
+FINAL_OBS = ("id", "raw", "sha", "id256", "len")
+
+
+def h_base(kind, base):
+    """Model (dulwich field space) of the start object."""
+    P = pool("sha1")
+    if kind == "blob":
+        return b"ab\ncd" if base == "plain" else b""
+    if kind == "tree":
+        if base == "plain":
+            return {b"a": (0o100644, P["B0"]), b"a.b": (0o100644, P["B1"])}
+        return {b"a": (0o40000, P["T0"]), b"a0": (0o100755, P["B0"]), b"a-": (0o120000, P["B0"])}
+    if kind == "commit":
+        m = dict(tree=P["T0"], parents=(P["C0"],), author=b"A U Thor <a@example.com>", author_time=1111111111,
+                 author_timezone=0, committer=b"C O Mitter <c@example.com>", commit_time=1222222222, commit_timezone=-25200,
+                 encoding=None, mergetag=(), gpgsig=None, message=b"subject\n", extra=((b"foo", b"bar"),))
+        if base == "rich":
+            m.update(parents=(P["C1"], P["C2"]), encoding=b"ISO-8859-1", mergetag=(P["MT_PGP"],), gpgsig=SSH_SIG,
+                     extra=((b"multi", b"l1\n\nl3"), (b"foo", b"bar")), author_timezone=19800, commit_timezone=-12600,
+                     message=b"subject\n\nbody\n")
+        return m
+    if kind == "tag":
+        m = dict(object=(b"commit", P["C0"]), name=b"v1.0", tagger=b"T Agger <t@example.com>", tag_time=1333333333,
+                 tag_timezone=3600, message=b"release\n", signature=None)
+        if base == "rich":
+            m.update(object=(b"tag", P["G0"]), signature=PGP_SIG + b"\n", tag_timezone=-34200)
+        return m
+    raise AssertionError(kind)
+
+
+def h_logical(kind, m):
+    """Model -> logical value of the reference model."""
+    if kind == "blob":
+        return m
+    if kind == "tree":
+        return tuple((n, mo, i) for n, (mo, i) in sorted(m.items()))
+    if kind == "commit":
+        return ref.commit(m["tree"], m["parents"], (m["author"], m["author_time"], ref.tz_text(m["author_timezone"])),
+                          (m["committer"], m["commit_time"], ref.tz_text(m["commit_timezone"])), m["encoding"],
+                          m["mergetag"], m["extra"], m["gpgsig"], m["message"])
+    tagger = None if m["tagger"] is None else (m["tagger"], m["tag_time"], ref.tz_text(m["tag_timezone"]))
+    return ref.tag(m["object"][1], m["object"][0], m["name"], tagger, m["message"], m["signature"])
+
+
+def h_ops(kind):
+    """The op alphabet: [(label, op-tuple)]; op-tuples are JSON-able (replay)."""
+    P = pool("sha1")
+    ops = []
+    if kind == "blob":
+        for v in (b"", b"x\ny", b"\x00\xff"):
+            ops.append(("data", ("set", "data", v)))
+        for ch in ([], [b"x", b"\ny"], [b"q"]):
+            ops.append(("chunked", ("set", "chunked", ch)))
+        ops.append(("set_raw_string", ("set", "set_raw_string", b"raw")))
+        ops.append(("set_raw_chunks", ("set", "set_raw_chunks", [b"r", b"", b"c"])))
+        extra_obs = ("data", "chunked", "splitlines", "check")
+    elif kind == "tree":
+        ops += [
+            ("__setitem__", ("setitem", b"a", 0o100644, P["B1"])),
+            ("__setitem__", ("setitem", b"a", 0o40000, P["T1"])),
+            ("__setitem__", ("setitem", b"a.b", 0o100755, P["B0"])),
+            ("__setitem__", ("setitem", b"a0", 0o100644, P["B0"])),
+            ("add", ("add", b"a-", 0o40000, P["T0"])),
+            ("add", ("add", b"a", 0o160000, P["C0"])),
+            ("add", ("add", b"a/b".replace(b"/", b"+"), 0o100644, P["B0"])),
+            ("__delitem__", ("del", b"a")),
+            ("__delitem__", ("del", b"a.b")),
+            ("__delitem__", ("del", b"absent")),
+        ]
+        extra_obs = ("items", "check", "len()")
+    elif kind == "commit":
+        vals = {
+            "tree": (P["T1"], P["T0"]),
+            "parents": ((), (P["C2"], P["C3"], P["C1"])),
+            "author": (b"Other <o@example.org>", b"\xff\xfe <>"),
+            "committer": (b"Other <o@example.org>", b" <e@x>"),
+            "message": (b"", b"changed\n", None),
+            "commit_time": (0, 2**31),
+            "commit_timezone": (19800, 0),
+            "author_time": (1, 2**63 - 1),
+            "author_timezone": (-12600, 50400),
+            "encoding": (None, b"UTF-16"),
+            "mergetag": ((), (P["MT_SSH"], P["MT_PGP"])),
+            "gpgsig": (None, PGP_SIG),
+        }
+        for f, vs in vals.items():
+            for v in vs:
+                ops.append((f, ("set", f, v)))
+        extra_obs = ("check", "copy")
+    else:
+        vals = {
+            "object": ((b"blob", P["B1"]), (b"commit", P["C3"])),
+            "name": (b"renamed", b"\xff name"),
+            "tagger": (b"Other <o@example.org>", None),
+            "tag_time": (0, 2**31),
+            "tag_timezone": (19800, -3540),
+            "message": (b"", b"changed\n", None),
+            "signature": (None, SSH_SIG + b"\n"),
+        }
+        for f, vs in vals.items():
+            for v in vs:
+                ops.append((f, ("set", f, v)))
+        extra_obs = ("check", "copy")
+    for o in FINAL_OBS + extra_obs:
+        ops.append((o, ("obs", o)))
+    return ops
+
+
+def h_fresh(kind, m):
+    """A fresh dulwich object built from the model's field values."""
+    O, FMT = _O()
+    if kind == "blob":
+        b = O.Blob()
+        b.data = m
+        return b
+    if kind == "tree":
+        t = O.Tree()
+        for n in sorted(m):
+            t[n] = m[n]
+        return t
+    if kind == "commit":
+        c = O.Commit()
+        for f in ("tree", "author", "author_time", "author_timezone", "committer", "commit_time", "commit_timezone",
+                  "encoding", "gpgsig", "message"):
+            setattr(c, f, m[f])
+        c.parents = list(m["parents"])
+        c.mergetag = [O.Tag.from_string(r) for r in m["mergetag"]]
+        c._extra = [(k, v) for k, v in m["extra"]]
+        return c
+    t = O.Tag()
+    t.object = (O.object_class(m["object"][0]), m["object"][1])
+    for f in ("name", "tagger", "tag_time", "tag_timezone", "message", "signature"):
+        setattr(t, f, m[f])
+    return t
+
+
+def h_observe(o, name):
+    O, FMT = _O()
+    if name == "id":
+        return o.id
+    if name == "raw":
+        return o.as_raw_string()
+    if name == "sha":
+        return o.sha().hexdigest().encode()
+    if name == "id256":
+        return o.get_id(FMT["sha256"])
+    if name == "len":
+        return o.raw_length()
+    if name == "check":
+        try:
+            o.check()
+        except Exception as e:  # validity of odd field values is not this property
+            return type(e).__name__
+        return None
+    if name == "copy":
+        return o.copy().id
+    if name == "items":
+        return tuple(o.items())
+    if name == "len()":
+        return len(o)
+    if name == "data":
+        return o.data
+    if name == "chunked":
+        return list(o.chunked)
+    if name == "splitlines":
+        return o.splitlines()
+    raise AssertionError(name)
+
+
+def h_apply(kind, o, m, op):
+    """Apply one setter to the live object and to the model; returns the new model."""
+    O, FMT = _O()
+    if kind == "blob":
+        _, how, v = op
+        if how == "data":
+            o.data = v
+            return v
+        if how == "chunked":
+            o.chunked = list(v)
+            return b"".join(v)
+        if how == "set_raw_string":
+            o.set_raw_string(v)
+            return v
+        o.set_raw_chunks(list(v))
+        return b"".join(v)
+    if kind == "tree":
+        m = dict(m)
+        if op[0] == "setitem":
+            o[op[1]] = (op[2], op[3])
+            m[op[1]] = (op[2], op[3])
+        elif op[0] == "add":
+            o.add(op[1], op[2], op[3])
+            m[op[1]] = (op[2], op[3])
+        else:
+            try:
+                del o[op[1]]
+                raised = False
+            except KeyError:
+                raised = True
+            if raised != (op[1] not in m):
+                raise _HistoryOpError("__delitem__", "KeyError %s" % ("unexpected" if raised else "missing"))
+            m.pop(op[1], None)
+        return m
+    _, f, v = op
+    m = dict(m)
+    if f == "parents":
+        o.parents = list(v)
+        m[f] = tuple(v)
+    elif f == "mergetag":
+        o.mergetag = [O.Tag.from_string(r) for r in v]
+        m[f] = tuple(v)
+    elif f == "object":
+        o.object = (O.object_class(v[0]), v[1])
+        m[f] = tuple(v)
+    else:
+        setattr(o, f, v)
+        m[f] = v
+    return m
+
+
+class _HistoryOpError(Exception):
+    pass
+
+
+_H_MEMO = {}
+
+
+def h_expected(acc, kind, tag, m, obs):
+    """Expected observer values = those of a FRESH object built from the same field values
+    (memoised per model state); the fresh object is also held against the reference serialiser."""
+    key = (kind, tag, repr(sorted(m.items()) if isinstance(m, dict) else m))
+    e = _H_MEMO.get(key)
+    if e is None:
+        f = h_fresh(kind, m)
+        raw = f.as_raw_string()
+        e = {"raw": raw, "id": harness_id("sha1", kind, raw), "sha": harness_id("sha1", kind, raw),
+             "id256": harness_id("sha256", kind, raw), "len": len(raw)}
+        if f.id != e["id"]:
+            raise HarnessError("fresh %s object's id is not the hash of its bytes (family A reports that)" % kind)
+        L = h_logical(kind, m)
+        want = ref.serialize(kind, L, "sha1")
+        cls = ref.diff_class(kind, raw, want, "sha1")
+        e["ref"] = want
+        acc.count("H_distinct_states")
+        if cls != "same":
+            K = kind if kind != "tree" else "tree.%s" % tag
+            acc.violation("%s:build:serialise-%s" % (K, cls), "fresh object from %r: got %r want %r" % (m, raw, want),
+                          rp(case_object, "sha1", kind, L, tag, "H"))
+        _H_MEMO[key] = e
+    return e[obs]
+
+
+def _h_start(kind, start, base):
+    m = h_base(kind, base)
+    if start == "fresh":
+        return h_fresh(kind, m), m
+    raw = ref.serialize(kind, h_logical(kind, m), "sha1")
+    return d_parse(kind, raw, "sha1"), m
+
+
+def _h_run(acc, kind, start, base, tag, seq):
+    """Run one op sequence whose last element is a final observer; returns None or
+    (key-suffix, summary)."""
+    o, m = _h_start(kind, start, base)
+    last_set = "nothing"
+    filled = []
+    for label, op in seq[:-1]:
+        try:
+            if op[0] == "obs":
+                h_observe(o, op[1])
+                filled.append(op[1])
+            else:
+                m = h_apply(kind, o, m, op)
+                last_set = label
+        except _HistoryOpError as e:
+            return ("%s:%s" % (e.args[0], e.args[1].replace(" ", "-")), "op %r" % (op,))
+        except Exception as e:
+            return ("%s:raises-%s" % (label, type(e).__name__), "%r at op %r" % (e, op))
+    obs = seq[-1][1][1]
+    try:
+        got = h_observe(o, obs)
+    except Exception as e:
+        return ("%s:raises-%s-after-%s" % (obs, type(e).__name__, last_set), repr(e))
+    want = h_expected(acc, kind, tag, m, obs)
+    if got != want:
+        names = {"id": "id", "raw": "as_raw_string", "sha": "sha()", "id256": "get_id(SHA256)", "len": "raw_length"}
+        return ("%s:stale-or-wrong-after-set-%s" % (names[obs], last_set),
+                "after %r: %s = %r, a fresh object with the same fields gives %r" % ([o_[1] for o_ in seq[:-1]], names[obs], got, want))
+    return None
+
+
+def case_history(acc: Acc, kind, start, base, tag, seq):
+    """seq: list of [label, op] (JSON-able)."""
+    seq = [(l, tuple(op)) for l, op in seq]
+    K = kind.capitalize() if kind != "tree" else "Tree.%s" % tag
+    with impl(tag):
+        r = _h_run(acc, kind, start, base, tag, seq)
+    acc.count("H_histories")
+    acc.count("evaluations")
+    if r:
+        acc.violation("history:%s:%s" % (K, r[0]), "%s/%s start, %s" % (start, base, r[1]),
+                      rp(case_history, kind, start, base, tag, [[l, list(op)] for l, op in seq]))
+
+
+def history_sequences(kind, depth, prefix):
+    """All op sequences of total length <= depth that start with `prefix` (a tuple of ops) and end
+    with a final observer."""
+    ops = h_ops(kind)
+    finals = [x for x in ops if x[1][0] == "obs" and x[1][1] in FINAL_OBS]
+    n0 = len(prefix)
+    for n in range(max(n0, 0), depth):
+        for mid in itertools.product(ops, repeat=n - n0):
+            for f in finals:
+                yield tuple(prefix) + mid + (f,)
+
+
+# --------------------------------------------------------------------------- C git in batch mode
+
+_FSCK_RE = re.compile(rb"^(error|warning) in (\w+) ([0-9a-f]+): (\w+):")
+_FSCK_IGNORE = (b"notice: HEAD points to an unborn branch", b"notice: No default references", b"Checking ")
+# INFO-level fsck messages (printed as warnings, never fatal, even with --strict) that canonical objects may draw
+ALLOWED_INFO = {b"badFilemode", b"missingTaggerEntry", b"badTagName"}
+
+
+def g_init(algo):
+    d = fresh_dir("g")
+    git(["init", "-q", "--bare"] + (["--object-format=sha256"] if algo == "sha256" else []) + [d])
+    os.mkdir(os.path.join(d, "in"))
+    return d
+
+
+_fileno = [0]
+
+
+def g_hash_objects(repo, kind, datas):
+    """git hash-object -w -t kind --stdin-paths over one file per object -> ids"""
+    if not datas:
+        return []
+    paths = []
+    for data in datas:
+        _fileno[0] += 1
+        p = os.path.join(repo, "in", "%d" % _fileno[0])
+        with open(p, "wb") as f:
+            f.write(data)
+        paths.append(p)
+    out = git(["hash-object", "-w", "-t", kind, "--stdin-paths"], cwd=repo, input=("\n".join(paths) + "\n").encode()).stdout
+    ids = out.split()
+    for p in paths:
+        os.unlink(p)
+    if len(ids) != len(datas):
+        raise HarnessError("hash-object answered %d ids for %d inputs" % (len(ids), len(datas)))
+    return ids
+
+
+def g_cat_batch(repo, ids):
+    """git cat-file --batch -> [(type, content) | None]"""
+    if not ids:
+        return []
+    out = git(["cat-file", "--batch"], cwd=repo, input=b"".join(i + b"\n" for i in ids), check=False).stdout
+    res = []
+    pos = 0
+    for i in ids:
+        eol = out.find(b"\n", pos)
+        if eol < 0:
+            res.append(None)
+            continue
+        head = out[pos:eol].split(b" ")
+        pos = eol + 1
+        if len(head) != 3 or head[0] != i:
+            res.append(None)  # "<id> missing" or garbage
+            continue
+        n = int(head[2])
+        res.append((head[1], out[pos : pos + n]))
+        pos += n + 1
+    return res
+
+
+def g_mktree_batch(repo, trees):
+    """git mktree -z --batch: git sorts and serialises the entries itself -> ids"""
+    if not trees:
+        return []
+    inp = []
+    for L in trees:
+        for n, m, i in L:
+            t = b"tree" if m == 0o40000 else b"commit" if m == 0o160000 else b"blob"
+            inp.append(b"%o %s %s\t%s\0" % (m, t, i, n))
+        inp.append(b"\0")
+    out = git(["mktree", "-z", "--batch"], cwd=repo, input=b"".join(inp)).stdout.split()
+    if len(out) != len(trees):
+        raise HarnessError("mktree answered %d ids for %d trees" % (len(out), len(trees)))
+    return out
+
+
+def g_fsck(repo):
+    p = git(["fsck", "--strict", "--no-dangling", "--no-progress"], cwd=repo, check=False)
+    found, other = [], []
+    for line in (p.stdout + p.stderr).splitlines():
+        m = _FSCK_RE.match(line)
+        if m:
+            found.append((m.group(1), m.group(2), m.group(3), m.group(4)))
+        elif line and not line.startswith(_FSCK_IGNORE):
+            other.append(line)
+    return found, other
+
+
+def is_clean(kind, L):
+    """True when C git must accept the object without any error (fsck --strict).  The quantifier
+    also names negative/huge times and odd identities git's fsck refuses; for those only names
+    and bytes are compared."""
+    def ident_ok(i):
+        return i is None or (not i[0].startswith(b"<") and 0 <= i[1] < 2**64 - 1)
+
+    if kind == "tree":
+        return not any(n.lower() == b".gitmodules" and m not in (0o100644, 0o100755, 0o100664) for n, m, _ in L)
+    if kind == "commit":
+        return ident_ok(L["author"]) and ident_ok(L["committer"])
+    if kind == "tag":
+        return ident_ok(L["tagger"])
+    return True
+
+
+def write_loose(repo, hexid, legacy):
+    d = os.path.join(repo, "objects", hexid[:2].decode())
+    os.makedirs(d, exist_ok=True)
+    with open(os.path.join(d, hexid[2:].decode()), "wb") as f:
+        f.write(legacy)
+
+
+def git_batch(acc: Acc, algo, items):
+    """items: [(kind, L, R, loose)].  Repo G: git hashes/stores/fscks the reference bytes and
+    builds the trees itself (validates the reference model; disagreement = HarnessError).
+    Repo D: the loose objects dulwich wrote under the names dulwich computed; git must read them
+    back byte-identical and fsck must accept them (violation otherwise)."""
+    P = pool(algo)
+    G = g_init(algo)
+    try:
+        for kind in ("blob", "tree", "commit", "tag"):
+            pre = [x for x in P["prereq"] if x[0] == kind]
+            ids = g_hash_objects(G, kind, [x[1] for x in pre])
+            if ids != [x[2] for x in pre]:
+                raise HarnessError("ORACLE-DISAGREEMENT: prerequisite %s ids: git %r, reference %r" % (kind, ids, [x[2] for x in pre]))
+        by_id = {}
+        for kind in KINDS:
+            sub = [it for it in items if it[0] == kind]
+            ids = g_hash_objects(G, kind, [it[2] for it in sub])
+            for it, gid in zip(sub, ids):
+                rid = ref.object_id(algo, kind.encode(), it[2])
+                if gid != rid:
+                    raise HarnessError("ORACLE-DISAGREEMENT: git hash-object %s vs reference %s for %s %r" % (gid, rid, kind, it[2]))
+                by_id[rid] = it
+                acc.count("git_hash_object_agreements")
+        trees = [it for it in items if it[0] == "tree"]
+        for it, gid in zip(trees, g_mktree_batch(G, [it[1] for it in trees])):
+            if gid != ref.object_id(algo, b"tree", it[2]):
+                got = g_cat_batch(G, [gid])[0]
+                raise HarnessError("ORACLE-DISAGREEMENT: git mktree builds %r from %r, the reference serialiser %r" % (got, it[1], it[2]))
+            acc.count("git_mktree_agreements")
+        ids = sorted(by_id)
+        for i, got in zip(ids, g_cat_batch(G, ids)):
+            it = by_id[i]
+            if got != (it[0].encode(), it[2]):
+                raise HarnessError("ORACLE-DISAGREEMENT: git cat-file gives %r for %s %r" % (got, it[0], it[2]))
+        found, other = g_fsck(G)
+        if other:
+            raise HarnessError("ORACLE-DISAGREEMENT: git fsck on reference-built objects prints %r" % (other[:5],))
+        for sev, typ, i, msg in found:
+            it = by_id.get(i)
+            if msg in (b"gitmodulesBlob", b"gitmodulesMissing") and any(not is_clean(x[0], x[1]) for x in items):
+                # reported against the object a non-blob .gitmodules entry (flagged unclean) points at
+                acc.outcome("git:fsck:%s:on-target-of-unclean-entry" % msg.decode())
+                continue
+            if it is None:
+                raise HarnessError("fsck complains about a prerequisite object: %r" % ((sev, typ, i, msg),))
+            acc.outcome("git:fsck:%s:%s:%s" % (sev.decode(), typ.decode(), msg.decode()))
+            if is_clean(it[0], it[1]) and not (sev == b"warning" and msg in ALLOWED_INFO):
+                raise HarnessError("ORACLE-DISAGREEMENT: git fsck --strict rejects a %s the check calls canonical: %s %r" % (it[0], msg, it[2]))
+        acc.count("git_fsck_clean_objects", sum(1 for it in items if is_clean(it[0], it[1])))
+    finally:
+        rmtree(G)
+    # ---- dulwich-written loose objects
+    D = g_init(algo)
+    try:
+        for kind, data, rid in P["prereq"]:
+            o = d_parse(kind, data, algo)
+            write_loose(D, rid, o.as_legacy_object())
+        named = {}
+        for it in items:
+            if it[3] is None:
+                continue
+            named[it[3][0]] = it
+            write_loose(D, it[3][0], it[3][1])
+        ids = sorted(named)
+        suspects = {}
+        for i, got in zip(ids, g_cat_batch(D, ids)):
+            it = named[i]
+            if got is None:
+                suspects[i] = "unreadable-or-misnamed"
+            elif got[0] != it[0].encode():
+                suspects[i] = "type-differs"
+            elif got[1] != it[2]:
+                # a content deviation from the reference is already reported by family A
+                acc.outcome("git:dulwich-loose:content-differs-from-reference")
+            else:
+                acc.count("git_reads_dulwich_loose_object")
+        found, other = g_fsck(D)
+        for sev, typ, i, msg in found:
+            it = named.get(i)
+            if it is not None and is_clean(it[0], it[1]) and it[2] == (g_cat_batch(D, [i])[0] or (None, None))[1] \
+                    and not (sev == b"warning" and msg in ALLOWED_INFO):
+                suspects.setdefault(i, "fsck-" + msg.decode())
+        for line in other:
+            m = re.search(rb"[0-9a-f]{40,64}", line)
+            if m and m.group(0) in named:
+                suspects.setdefault(m.group(0), "fsck-" + line.split(b":")[0].decode("ascii", "replace").replace(" ", "-"))
+            elif not m:
+                suspects.setdefault(ids[0] if ids else b"", "fsck-output")
+        for i in sorted(suspects):
+            it = named.get(i)
+            if it is not None:
+                case_loose(acc, algo, it[0], it[1])
+    finally:
+        rmtree(D)
+
+
+def case_loose(acc: Acc, algo, kind, L):
+    """One object: dulwich writes the loose file under the name it computed; C git reads it."""
+    O, FMT = _O()
+    if kind in ("commit", "tag"):
+        L = dict(L)
+    elif kind == "tree":
+        L = tuple(tuple(e) for e in L)
+    me = rp(case_loose, algo, kind, L)
+    P = pool(algo)
+    F = d_build(kind, L, algo)
+    name, legacy, raw = F.get_id(FMT[algo]), F.as_legacy_object(), F.as_raw_string()
+    D = g_init(algo)
+    try:
+        for k, data, rid in P["prereq"]:
+            write_loose(D, rid, d_parse(k, data, algo).as_legacy_object())
+        write_loose(D, name, legacy)
+        got = g_cat_batch(D, [name])[0]
+        why = None
+        if got is None:
+            why = "unreadable-or-misnamed"
+        elif got != (kind.encode(), raw):
+            why = "type-or-content-differs"
+        else:
+            found, other = g_fsck(D)
+            bad = [m.decode() for s, t, i, m in found if i == name and not (s == b"warning" and m in ALLOWED_INFO)]
+            if bad and is_clean(kind, L) and raw == ref.serialize(kind, L, algo):
+                why = "fsck-" + bad[0]
+            elif other:
+                why = "fsck-" + other[0].split(b":")[0].decode("ascii", "replace").replace(" ", "-")
+        acc.count("loose_individual")
+        if why:
+            acc.violation("git:dulwich-loose-object:%s:%s" % (kind, why), "%s %r stored as %s: git says %r" % (kind, raw[:200], name, got and got[0]), me)
+    finally:
+        rmtree(D)
+
+
+# --------------------------------------------------------------------------- family A: the enumerated grammar
+
+TREE_NAMES = [b"a", b"a.b", b"a-", b"a0", b"a b", b"ab", b"\xc3\xa9", b"\xff", b".gitmodules"]
+TREE_MODES = [0o100644, 0o100755, 0o120000, 0o40000, 0o160000, 0o100664]
+TREE_SPECIAL_NAMES = [b"a\nb", b'"q"', b"a\\b", b"\x01", b"a\tb", b" ", b"n" * 300, b"A", b".GITMODULES", b"a.", b"a\x7f"]
+
+
+def entry_id(algo, mode, k):
+    P = pool(algo)
+    if mode == 0o40000:
+        return (P["T0"], P["T1"])[k % 2]
+    if mode == 0o160000:
+        return (P["C0"], P["C1"])[k % 2]
+    return (P["B0"], P["B1"])[k % 2]
+
+
+def gen_trees(algo, maxn):
+    for n in range(0, maxn + 1):
+        for names in itertools.combinations(TREE_NAMES, n):
+            for modes in itertools.product(TREE_MODES, repeat=n):
+                yield tuple((nm, mo, entry_id(algo, mo, k)) for k, (nm, mo) in enumerate(zip(names, modes)))
+    for sp in TREE_SPECIAL_NAMES:
+        for mo in (0o100644, 0o40000):
+            yield ((sp, mo, entry_id(algo, mo, 0)),)
+            yield ((b"a", 0o40000, entry_id(algo, 0o40000, 1)), (sp, mo, entry_id(algo, mo, 0)))
+
+
+IDENTS = [
+    b"A U Thor <author@example.com>",
+    b" <e@x>",                     # empty name
+    b" <>",                        # empty name and email
+    b"<>",                         # '<>' only (git's fsck refuses it; names and bytes still compared)
+    b"N\xff\xfe <n@x>",            # not UTF-8
+    b"Trail  <t@x>",               # name with a trailing space
+    b"Dr. O'Neil, Jr. <o'neil@x>",
+    b"A <a b@c>",                  # blank inside the address
+    b"\xc3\x89ric <e@x>",
+]
+TIMES = [0, 1, -1, 2**31 - 1, 2**31, 2**32, 2**63 - 1, 1234567890]
+ZONES = [b"+0000", b"-0000", b"+0530", b"-0330", b"+1400", b"-1200", b"+0059", b"-0059", b"+0100", b"-0700", b"+1245", b"+2359"]
+EXTRAS = [(b"foo", b"bar"), (b"HG:rename-source", b"hg"), (b"multi", b"l1\nl2\nl3"), (b"blank", b"l1\n\nl3"), (b"trail", b"v\n")]
+COMMIT_MESSAGES = [None, b"", b"m", b"m\n", b"\n\nm", b"subject\n\nbody \xff\n"]
+AU = (b"A U Thor <author@example.com>", 1112911993, b"-0700")
+CO = (b"C O Mitter <committer@example.com>", 1112912053, b"+0200")
+
+
+def _extra_lists(maxn):
+    yield ()
+    for n in range(1, maxn + 1):
+        yield from itertools.permutations(EXTRAS, n)
+
+
+def gen_commits(algo, quick):
+    P = pool(algo)
+    seen = set()
+
+    def out(c):
+        k = ref.serialize_commit(c)
+        if k not in seen:
+            seen.add(k)
+            return True
+        return False
+
+    base = dict(tree=P["T0"], parents=(P["C0"],), author=AU, committer=CO, encoding=None, mergetags=(), extra=(), gpgsig=None,
+                message=b"subject\n\nbody\n")
+    par = [(), (P["C0"],), (P["C1"], P["C2"]), (P["C3"], P["C1"], P["C2"])]
+    mts = [(), (P["MT_PGP"],), (P["MT_PGP"], P["MT_SSH"])]
+    # header set x message (x parents in the thorough tier)
+    for enc in (None, b"ISO-8859-1"):
+        for mt in mts:
+            for ex in _extra_lists(2 if quick else 3):
+                for sig in (None, PGP_SIG, SSH_SIG):
+                    for msg in COMMIT_MESSAGES:
+                        for pa in (par[1:2] if quick or len(ex) > 2 else par):
+                            c = _with(base, encoding=enc, mergetags=mt, extra=tuple(ex), gpgsig=sig, message=msg, parents=pa)
+                            if out(c):
+                                yield c
+    # parents x mergetag
+    for pa in par:
+        for mt in mts:
+            for msg in (b"m\n", None):
+                c = _with(base, parents=pa, mergetags=mt, message=msg)
+                if out(c):
+                    yield c
+    # identities x times x zones (author); one factor at a time (committer); zone pairs
+    for who in IDENTS:
+        for t in TIMES:
+            for z in ZONES:
+                c = _with(base, author=(who, t, z))
+                if out(c):
+                    yield c
+    for who in IDENTS:
+        c = _with(base, committer=(who, CO[1], CO[2]))
+        if out(c):
+            yield c
+    for t in TIMES:
+        c = _with(base, committer=(CO[0], t, CO[2]))
+        if out(c):
+            yield c
+    for za in ZONES:
+        for zc in ZONES:
+            c = _with(base, author=(AU[0], AU[1], za), committer=(CO[0], CO[1], zc))
+            if out(c):
+                yield c
+    for enc in (b"UTF-8", b"latin-1", b"x"):
+        c = _with(base, encoding=enc)
+        if out(c):
+            yield c
+
+
+TAG_NAMES = [b"v1.0", b"with space", b"\xff\xfe", b"a/b", b"-dash", b"\xc3\xa9"]
+TAG_MESSAGES = [None, b"", b"m\n", b"m", b"line1\n\nline3\n", b"\nleading blank\n"]
+
+
+def gen_tags(algo, quick):
+    P = pool(algo)
+    seen = set()
+    targets = [(b"commit", P["C0"]), (b"tree", P["T0"]), (b"blob", P["B0"]), (b"tag", P["G0"])]
+    tg = (b"T Agger <tagger@example.com>", 1200000000, b"+0100")
+    for ty, oid in targets:
+        for tagger in (None, tg):
+            for sig in (None, PGP_SIG + b"\n", SSH_SIG + b"\n"):
+                for msg in TAG_MESSAGES:
+                    if sig is not None and (msg is None or (msg and not msg.endswith(b"\n"))):
+                        continue  # a signature starts at the beginning of a line of an existing body
+                    for name in TAG_NAMES:
+                        t = ref.tag(oid, ty, name, tagger, msg, sig)
+                        k = ref.serialize_tag(t)
+                        if k not in seen:
+                            seen.add(k)
+                            yield t
+    for who in IDENTS:
+        for t_ in TIMES:
+            for z in ZONES:
+                t = ref.tag(P["C0"], b"commit", b"v1.0", (who, t_, z), b"m\n", None)
+                k = ref.serialize_tag(t)
+                if k not in seen:
+                    seen.add(k)
+                    yield t
+
+
+def gen_blobs(quick):
+    small, mid = blob_contents(quick)
+    for c in small + mid:
+        yield c
+    for n in (4095, 4096, 4097, 65535, 65536, 65537):
+        yield bytes((i * 13 + (i >> 7)) & 0xFF for i in range(n))
+    yield b"blob 3\0abc"  # content that looks like an object header
+    yield b"tree " + b"0" * 40 + b"\n"
+
+
+# --------------------------------------------------------------------------- task plumbing
+
+
+def _seeded(items, seed):
+    items = list(items)
+    if seed:
+        import random
+
+        random.Random(seed).shuffle(items)
+    return items
+
+
+def work(task):
+    kind = task[0]
+    acc = Acc()
+    if kind == "objects":
+        _, algo, tag, fam, items, seed = task
+        batch = []
+        for k, L in _seeded(items, seed):
+            R, loose = case_object(acc, algo, k, L, tag, fam)
+            batch.append((k, L, R, loose))
+        if tag == "rust":
+            git_batch(acc, algo, batch)
+        acc.sample({"family": fam, "algo": algo, "first": repr(items[0])[:300], "last": repr(items[-1])[:300], "n": len(items)}, cap=1)
+    elif kind == "blobchunks":
+        for ch in _seeded(task[1], task[2]):
+            case_blob_chunks(acc, ch)
+    elif kind == "history":
+        _, k, start, base, tag, depth, prefixes, seed = task
+        K = k.capitalize() if k != "tree" else "Tree.%s" % tag
+        with impl(tag):
+            for prefix in _seeded(prefixes, seed):
+                for seq in history_sequences(k, depth, prefix):
+                    r = _h_run(acc, k, start, base, tag, seq)
+                    acc.count("H_histories")
+                    acc.count("H_histories_%s" % k)
+                    acc.count("evaluations")
+                    nset = sum(1 for _, op in seq if op[0] != "obs")
+                    acc.outcome("H:%s:setters=%d:observers-before-final=%d" % (k, nset, len(seq) - 1 - nset))
+                    if r:
+                        acc.violation("history:%s:%s" % (K, r[0]), "%s/%s start, %s" % (start, base, r[1]),
+                                      rp(case_history, k, start, base, tag, [[l, list(op)] for l, op in seq]))
+    elif kind == "gitbuilt":
+        git_built(acc, task[1], task[2])
+    else:
+        raise AssertionError(kind)
+    return acc
+
+
+# --------------------------------------------------------------------------- family G: objects C git builds from field values
+
+
+def _stubs():
+    d = fresh_dir("stub")
+    for name, sig in (("pgpsig", PGP_SIG), ("sshsig", SSH_SIG)):
+        with open(os.path.join(d, name), "wb") as f:
+            f.write(sig + b"\n")
+    gpg = os.path.join(d, "gpg")
+    with open(gpg, "w") as f:
+        f.write('#!/bin/sh\nfor a; do case "$a" in --verify) exit 1;; esac; done\ncat >/dev/null\n'
+                'printf "[GNUPG:] SIG_CREATED D 1 8 00 1 0\\n" >&2\ncat %s/pgpsig\n' % d)
+    ssh = os.path.join(d, "ssh-keygen")
+    with open(ssh, "w") as f:
+        f.write('#!/bin/sh\ncase "$2" in sign) ;; *) exit 1;; esac\nfor a; do last="$a"; done\ncat %s/sshsig > "$last.sig"\n' % d)
+    os.chmod(gpg, 0o755)
+    os.chmod(ssh, 0o755)
+    return d, ["-c", "gpg.program=" + gpg, "-c", "user.signingkey=K"], \
+        ["-c", "gpg.format=ssh", "-c", "gpg.ssh.program=" + ssh, "-c", "user.signingkey=key::ssh-ed25519 AAAA"]
+
+
+def _split_ident(who):
+    name, _, rest = who.partition(b" <")
+    return name, rest[:-1]
+
+
+def _cli_ident_ok(ident):
+    """Identities git's own ident code passes through unchanged, dates git can be told."""
+    name, mail = _split_ident(ident[0])
+    return (name.strip(b" .,:;<>\"'\\") == name and name != b"" and mail.strip() == mail and b" " not in mail and mail != b""
+            and 0 <= ident[1] < 2**63 and ident[2] != b"-0000")
+
+
+def gen_cli_commits(algo, quick):
+    P = pool(algo)
+    base = dict(tree=P["T0"], parents=(), author=AU, committer=CO, encoding=None, mergetags=(), extra=(), gpgsig=None, message=b"m\n")
+    par = [(), (P["C0"],), (P["C1"], P["C2"]), (P["C3"], P["C1"], P["C2"])]
+    out = []
+    for pa in par:
+        for msg in COMMIT_MESSAGES[1:]:
+            for sig in (None, PGP_SIG, SSH_SIG):
+                for enc in (None, b"ISO-8859-1"):
+                    if quick and sig and enc and len(pa) > 1:
+                        continue
+                    out.append(_with(base, parents=pa, message=msg, gpgsig=sig, encoding=enc, tree=P["T1"] if pa else P["T0"]))
+    for who in IDENTS:
+        for z in ZONES[:7] if quick else ZONES:
+            for t in (TIMES[:5] if quick else TIMES):
+                i = (who, t, z)
+                if _cli_ident_ok(i):
+                    out.append(_with(base, author=i))
+                    out.append(_with(base, committer=i, gpgsig=PGP_SIG if t == 0 else None))
+    return out
+
+
+def gen_cli_tags(algo, quick):
+    P = pool(algo)
+    tg = (b"T Agger <tagger@example.com>", 1200000000, b"+0100")
+    out = []
+    for ty, oid in [(b"commit", P["C0"]), (b"tree", P["T0"]), (b"blob", P["B0"]), (b"tag", P["G0"])]:
+        for msg in TAG_MESSAGES[1:]:
+            for sig in (None, PGP_SIG + b"\n", SSH_SIG + b"\n"):
+                if sig is not None and msg and not msg.endswith(b"\n"):
+                    continue
+                out.append(ref.tag(oid, ty, b"v1.0", tg, msg, sig))
+    for name in (b"a/b", b"\xc3\xa9", b"\xff\xfe"):
+        out.append(ref.tag(P["C0"], b"commit", name, tg, b"m\n", None))
+    for who in IDENTS:
+        for z in ZONES:
+            i = (who, 1234567890, z)
+            if _cli_ident_ok(i):
+                out.append(ref.tag(P["C0"], b"commit", b"v1.0", i, b"m\n", None))
+    return out
+
+
+def git_built(acc: Acc, algo, quick):
+    P = pool(algo)
+    G = g_init(algo)
+    d, pgp_cfg, ssh_cfg = _stubs()
+    msgfile = os.path.join(d, "msg")
+
+    def ident_env(prefix, ident):
+        name, mail = _split_ident(ident[0])
+        return {"GIT_%s_NAME" % prefix: name, "GIT_%s_EMAIL" % prefix: mail, "GIT_%s_DATE" % prefix: b"@%d %s" % (ident[1], ident[2])}
+
+    def signer(sig):
+        return [] if sig is None else ssh_cfg if b"SSH" in sig else pgp_cfg
+
+    try:
+        for kind in KINDS:
+            g_hash_objects(G, kind, [x[1] for x in P["prereq"] if x[0] == kind])
+        # ---- git commit-tree
+        for L in gen_cli_commits(algo, quick):
+            with open(msgfile, "wb") as f:
+                f.write(L["message"])
+            env = ident_env("AUTHOR", L["author"])
+            env.update(ident_env("COMMITTER", L["committer"]))
+            args = signer(L["gpgsig"]) + (["-c", b"i18n.commitEncoding=" + L["encoding"]] if L["encoding"] else [])
+            args += ["commit-tree"] + (["-S"] if L["gpgsig"] else []) + [L["tree"]]
+            for p in L["parents"]:
+                args += ["-p", p]
+            cid = git(args + ["-F", msgfile], cwd=G, env=env).stdout.strip()
+            got = g_cat_batch(G, [cid])[0]
+            want = ref.serialize_commit(L)
+            if got != (b"commit", want):
+                raise HarnessError("ORACLE-DISAGREEMENT: git commit-tree builds %r, the reference serialiser %r" % (got, want))
+            acc.count("git_commit_tree_agreements")
+            case_object(acc, algo, "commit", L, "rust", "G")
+        # ---- git tag -a / -s
+        n = 0
+        for L in gen_cli_tags(algo, quick):
+            n += 1
+            with open(msgfile, "wb") as f:
+                f.write(L["message"])
+            refname = b"t%d/" % n + L["name"]
+            args = signer(L["signature"]) + ["tag", "-s" if L["signature"] else "-a", "--cleanup=verbatim", "-F", msgfile, refname, L["object"]]
+            git(args, cwd=G, env=ident_env("COMMITTER", L["tagger"]))
+            tid = git(["rev-parse", b"refs/tags/" + refname], cwd=G).stdout.strip()
+            got = g_cat_batch(G, [tid])[0]
+            # git names the tag after the ref we had to make unique; the field under test is what is in the object
+            L2 = _with(L, name=refname)
+            want = ref.serialize_tag(L2)
+            if got != (b"tag", want):
+                raise HarnessError("ORACLE-DISAGREEMENT: git tag builds %r, the reference serialiser %r" % (got, want))
+            acc.count("git_tag_agreements")
+            case_object(acc, algo, "tag", L2, "rust", "G")
+            case_object(acc, algo, "tag", L, "rust", "G")
+    finally:
+        rmtree(G)
+    # ---- git merge of signed tags -> mergetag headers (needs a work tree)
+    W = fresh_dir("w")
+    try:
+        git(["init", "-q"] + (["--object-format=sha256"] if algo == "sha256" else []) + [W])
+        run = lambda a, **kw: git(a, cwd=W, **kw).stdout.strip()
+        T = run(["hash-object", "-w", "-t", "tree", "/dev/null"])
+        c1 = run(["commit-tree", T, "-m", "one"])
+        run(["update-ref", "HEAD", c1])
+        run(["reset", "-q", "--hard"])
+        sides = []
+        for i, cfg in enumerate((pgp_cfg, ssh_cfg)):
+            c = run(["commit-tree", T, "-p", c1, "-m", "side %d" % i])
+            run(cfg + ["tag", "-s", "-m", "signed %d\n\nbody" % i, "sig%d" % i, c])
+            sides.append("sig%d" % i)
+        merges = []
+        for names in ([sides[0]], [sides[1]], sides):
+            run(["reset", "-q", "--hard", c1])
+            run(pgp_cfg + ["merge", "-q", "--no-ff", "--no-edit"] + names)
+            merges.append((names, run(["rev-parse", "HEAD"])))
+        for names, mid in merges:
+            kind, raw = g_cat_batch(W, [mid])[0]
+            L = ref.parse_commit(raw)
+            tags = tuple(g_cat_batch(W, [run(["rev-parse", "refs/tags/" + n_])])[0][1] for n_ in names)
+            if ref.serialize_commit(L) != raw or L["mergetags"] != tags or len(L["parents"]) != 1 + len(names):
+                raise HarnessError("ORACLE-DISAGREEMENT: reference model on git's merge commit %r (tags %r)" % (raw, tags))
+            acc.count("git_merge_mergetag_agreements")
+            acc.outcome("G:git-merge:mergetags=%d" % len(tags))
+            case_object(acc, algo, "commit", L, "rust", "G")
+    finally:
+        rmtree(W)
+        rmtree(d)
+
+
+# --------------------------------------------------------------------------- run
+
+
+def _chunks(seq, n):
+    seq = list(seq)
+    return [seq[i : i + n] for i in range(0, len(seq), n)]
+
+
+def run(ctx):
+    q = ctx.quick
+    paths = common.preload_rust()
+    O, FMT = _O()
+    seed = ctx.seed
+    tasks = []
+    sizes = {}
+    # ---- A
+    for algo in ALGOS:
+        trees = [("tree", t) for t in gen_trees(algo, 3 if q else 4)]
+        commits = [("commit", c) for c in gen_commits(algo, q)]
+        tags = [("tag", t) for t in gen_tags(algo, q)]
+        blobs = [("blob", b) for b in gen_blobs(q)]
+        sizes[algo] = {"trees": len(trees), "commits": len(commits), "tags": len(tags), "blobs": len(blobs)}
+        for part in _chunks(trees, 700):
+            tasks.append(("objects", algo, "rust", "A", part, seed))
+            tasks.append(("objects", algo, "py", "A", part, seed))
+        for part in _chunks(commits, 120):
+            tasks.append(("objects", algo, "rust", "A", part, seed))
+        for part in _chunks(tags, 250):
+            tasks.append(("objects", algo, "rust", "A", part, seed))
+        for part in _chunks(blobs, 60):
+            tasks.append(("objects", algo, "rust", "A", part, seed))
+    # ---- B
+    small, mid = blob_contents(q)
+    chs = []
+    for c in small:
+        chs += list(chunkings(c, True))
+    for c in mid:
+        chs += list(chunkings(c, len(c) <= 4))
+    for n in (4095, 4096, 4097, 65535, 65536, 65537):
+        chs += list(big_chunkings(n))
+    for part in _chunks(chs, 400):
+        tasks.append(("blobchunks", part, seed))
+    # ---- H
+    depth = {"blob": 5 if q else 6, "tree": 4 if q else 5, "commit": 4 if q else 5, "tag": 4 if q else 5}
+    hist_n = 0
+    for kind in KINDS:
+        ops = h_ops(kind)
+        for base in ("plain", "rich"):
+            d = depth[kind] - (0 if base == "plain" or kind in ("blob", "tree") else 1)
+            for start in ("fresh", "parsed"):
+                for tag in ("rust", "py") if kind == "tree" else ("rust",):
+                    # sequences of length 1 (a lone observer) + one task per group of first ops
+                    tasks.append(("history", kind, start, base, tag, 1, [()], seed))
+                    firsts = [(o,) for o in ops]
+                    if d >= 5:
+                        firsts = [(a, b) for a in ops for b in ops]
+                        tasks.append(("history", kind, start, base, tag, 2, [(o,) for o in ops], seed))
+                    for part in _chunks(firsts, max(1, len(firsts) // 24)):
+                        tasks.append(("history", kind, start, base, tag, d, part, seed))
+    # ---- G
+    for algo in ALGOS:
+        tasks.append(("gitbuilt", algo, q))
+
+    order = {"gitbuilt": 0, "history": 1, "objects": 2, "blobchunks": 3}
+    tasks.sort(key=lambda t: order[t[0]])  # long tasks first
+    if seed:
+        tasks = ctx.order(tasks)
+    pmap_acc(work, tasks, ctx.acc, jobs=ctx.jobs)
+
+    n = ctx.acc.n
+    classes = ctx.acc.classes
+    ctx.level = "exploration"
+    ctx.coverage.update(
+        evaluations=n.get("evaluations", 0),
+        distinct_nontrivial=len([c for c in classes if not c.endswith(":same")]),
+        rule=(
+            "E4 bounded-exhaustive. A: every tree with <=%d entries over names %r x modes %s (+%d special names), "
+            "commits = {encoding 0/1} x {0,1,2 mergetags} x {ordered lists of <=%d of 5 extra headers incl. multi-line, empty "
+            "continuation line, trailing-LF value} x {no, PGP, SSH gpgsig} x 6 messages (missing, empty, no final LF, ...)%s "
+            "+ parents 0..3 x mergetags + 9 identities x 8 times x 12 zones (author) + committer one factor at a time + 12x12 "
+            "zone pairs; tags = 4 target types x tagger 0/1 x {no, PGP, SSH} signature x 6 messages x 6 names + 9x8x12 taggers; "
+            "blobs = all strings <=3 over {00,0a,'a',ff} + sizes 4095-4097, 65535-65537; each for SHA-1 and SHA-256, each built, "
+            "serialised, parsed, re-serialised after re-assigning every field and after changing every field once; trees under the "
+            "Rust and the pure-Python parse_tree/sorted_tree_items.  B: every chunking (with and without an empty chunk) of every "
+            "small blob content through 5 ways of handing chunks to a Blob.  H: every sequence of <=%d/%d/%d/%d (blob/tree/commit/"
+            "tag) setter-or-observer calls followed by one of the observers id, as_raw_string, sha(), get_id(SHA256), raw_length, "
+            "from a fresh and from a parsed start object, two base objects each; oracle = fresh object with the same field values.  "
+            "G: commits/tags/merges C git builds itself from the same field values (commit-tree, tag -a/-s with stub signers, "
+            "merge of signed tags).  distinct_nontrivial = observed structural / outcome classes other than plain agreement."
+            % (3 if q else 4, [x.decode("latin1") for x in TREE_NAMES], ["%o" % m for m in TREE_MODES], len(TREE_SPECIAL_NAMES),
+               2 if q else 3, "" if q else " x parents 0..3",
+               depth["blob"] - 1, depth["tree"] - 1, depth["commit"] - 1, depth["tag"] - 1)
+        ),
+        exhaustive=True,
+        bounds={"tree_entries": 3 if q else 4, "extra_headers": 2 if q else 3, "history_ops_before_final_observer": {k: v - 1 for k, v in depth.items()},
+                "objects_per_algo": sizes, "blob_chunkings": len(chs)},
+        rust_extension=paths["_objects"],
+        traces_validated_against_impl=n.get("evaluations", 0),
+    )
+    ctx.assumptions += [
+        "reference serialiser/parser engines/refmodels/gitobjects.py agrees with C git 2.39.5 on every enumerated object "
+        "(hash-object ids, cat-file bytes, mktree/commit-tree/tag/merge built objects, fsck --strict); a disagreement is exit 2",
+        "canonical header order = the one C git writes: tree, parent*, author, committer, encoding?, mergetag*, other*, gpgsig?",
+        "extra headers and the -0000 flag have no public setter in dulwich: fresh objects get them through Commit._extra / "
+        "_*_timezone_neg_utc like dulwich's own tests do",
+        "negative times, 2^64-1 and identities without a name before '<' are refused by git fsck: for them only names and bytes "
+        "are compared with git (hash-object/cat-file), not acceptance",
+        "dulwich.objects.parse_tree/sorted_tree_items are the Rust functions rebuilt from the working tree; the pure-Python twins "
+        "are exercised by rebinding the two module globals",
+    ]
+
+
+def replay(ctx, obj):
+    import sys
+
+    return replay_generic(sys.modules[__name__], ctx, obj)
